@@ -240,6 +240,36 @@ func genC15(col *ev.Collector) func(t *rapid.T) c15Case {
 				c.Packages = append(c.Packages, src)
 				continue
 			}
+			if len(c.Packages) > 0 && rapid.IntRange(0, 6).Draw(t, "twin") == 6 {
+				// a twin: the same package name and version from the same extractor, with
+				// other metadata feeding the url (another architecture, distribution, group)
+				src := c.Packages[rapid.IntRange(0, len(c.Packages)-1).Draw(t, "twinof")]
+				if src.Purl != nil {
+					tw := src
+					pu := *src.Purl
+					pu.Qualifiers = append([]c15Qualifier(nil), src.Purl.Qualifiers...)
+					switch rapid.IntRange(0, 2).Draw(t, "twin_kind") {
+					case 0:
+						pu.Qualifiers = append(pu.Qualifiers, c15Qualifier{Key: "arch", Value: rapid.SampledFrom([]string{"i386", "arm64", "s390x"}).Draw(t, "twin_arch")})
+						if !c15QualifiersOK(pu) {
+							pu.Qualifiers = pu.Qualifiers[:len(pu.Qualifiers)-1]
+							pu.Name = pu.Name + "-twin"
+						}
+					case 1:
+						if strings.EqualFold(pu.Type, purl.TypeConan) {
+							pu.Name = pu.Name + "-twin"
+						} else {
+							pu.Namespace = rapid.SampledFrom([]string{"ubuntu", "org.other", "twin"}).Draw(t, "twin_ns")
+						}
+					default:
+						pu.Name = pu.Name + "-twin"
+					}
+					tw.Purl = &pu
+					tw.Locations = append([]string(nil), src.Locations...)
+					c.Packages = append(c.Packages, tw)
+					continue
+				}
+			}
 			var p c15Package
 			special := rapid.IntRange(0, 2).Draw(t, "pkg_special") > 0
 			if rapid.IntRange(0, 5).Draw(t, "nopurl") == 5 {
@@ -279,6 +309,19 @@ func genC15(col *ev.Collector) func(t *rapid.T) c15Case {
 		}
 		return c
 	}
+}
+
+// c15QualifiersOK reports whether the qualifier keys of the url are distinct.
+func c15QualifiersOK(p c15Purl) bool {
+	seen := map[string]bool{}
+	for _, q := range p.Qualifiers {
+		k := strings.ToLower(q.Key)
+		if seen[k] {
+			return false
+		}
+		seen[k] = true
+	}
+	return true
 }
 
 // ---- oracle ------------------------------------------------------------------------------
